@@ -112,6 +112,7 @@ PROPS = {
             {"test": "TestC16RawEnum", "kind": "enum", "shards": 2, "env": {"VERIF_C16_ENUM_LEN": "5"}},
             {"test": "TestC16Fault", "checks": 40000, "shards": 4},
             {"test": "TestC16AnyError", "checks": 40000, "shards": 4},
+            {"test": "TestC16RawLine", "checks": 6000, "shards": 2},
         ],
         "thorough": [
             {"test": "TestC16Lex", "checks": 1600000, "shards": 6},
@@ -119,10 +120,11 @@ PROPS = {
             {"test": "TestC16RawEnum", "kind": "enum", "shards": 8, "env": {"VERIF_C16_ENUM_LEN": "6"}},
             {"test": "TestC16Fault", "checks": 1600000, "shards": 8},
             {"test": "TestC16AnyError", "checks": 1600000, "shards": 8},
+            {"test": "TestC16RawLine", "checks": 200000, "shards": 4},
         ],
         "fuzz": [{"fuzz": "FuzzC16Raw", "fuzztime": "60s"}],
         "assumptions": [
-            "the source an error 'names' is Error.Filename, or the reported token's file when Filename is empty (filter errors carry no file name of their own)",
+            "the source an error 'names' is Error.Filename; an error that carries a position must name one (since repair 40)",
             "a fault executing inside a macro body is reported at the call site (the macro is a function call from the caller's view): then only consistency of file/position/token at the call site is required",
             "a position one past the last byte (EOF) counts as inside the source",
             "errors about a template that could not be loaded (sender fromfile) name the missing file and carry the position of the referring tag; there is no source to point into, so their position is not examined",
